@@ -306,6 +306,34 @@ def blockE(ctx, case):
         if fits and (r is not None or st != [TRUE]):
             ctx.violation({'op': 'SIGN->CHECK_SIG', 'clause': 'sign-then-check under a non-default item limit'},
                           f'message {len(m)} bytes, item limit {limit}, flag {flag:02x}: {r!r} {st}')
+    # item-count limit: the signing and checking instructions consume their operands before they produce anything, so
+    # they work on a stack that is exactly full (GET_MESSAGE, which only produces, needs one free slot)
+    if limit == 1024:
+        small = {'sigfield1': b'ab', 'sigfield3': b'c'}
+        for mi in (1, 2, 3, 1024):
+            for flag in (0x00, 0x01, 0x84):
+                n += 1
+                m = b''.join(small[k] for k in sorted(small) if not flag >> (int(k[-1]) - 1) & 1)
+                want_sig = sigbytes(refed.sign(ks, m), flag)
+                fill = op('TRUE') * (mi - 1) if mi <= 3 else op('TRUE') * 1023
+                kw = dict(stack_max_items=mi)
+                ctx.state(('E-items', total, mi, flag))
+                r, st, _ = run(fill + push(ks) + op('SIGN') + bytes([flag]), small, **kw)
+                ctx.ran(); ctx.trans(2)
+                if r is not None or st[-1:] != [want_sig]:
+                    ctx.violation({'op': 'SIGN', 'clause': 'signs on an exactly full stack (operands are consumed first)'},
+                                  f'stack_max_items {mi}, flag {flag:02x}: {r!r}')
+                if mi >= 2:
+                    fill2 = fill[:-1]
+                    r, st, _ = run(fill2 + push(want_sig) + push(pk) + op('CHECK_SIG') + b'\xff', small, **kw)
+                    ctx.ran(); ctx.trans(3)
+                    if r is not None or st[-1:] != [TRUE]:
+                        ctx.violation({'op': 'CHECK_SIG', 'clause': 'checks on an exactly full stack (operands are consumed first)'},
+                                      f'stack_max_items {mi}, flag {flag:02x}: {r!r} {st[-1:]}')
+                r, st, _ = run(fill + op('TRUE') + op('GET_MESSAGE') + bytes([flag]), small, **kw)
+                ctx.ran(); ctx.trans()
+                if r is None:
+                    ctx.violation({'op': 'GET_MESSAGE', 'clause': 'item-count limit enforced'}, f'stack_max_items {mi}: {len(st)} items')
     ctx.evaluations += n - 1
 
 
